@@ -386,7 +386,7 @@ func runPlan(idx int, p respPlan, t *respTargets, root string) respRun {
 		res.BuildErr = err.Error()
 		return res
 	}
-	agg := &recAggregator{}
+	agg := &scnRecAggregator{}
 	m := engine.Metrics{Request: &monitoring.Counter{}, Response: &monitoring.Counter{},
 		InstanceStart: &monitoring.Counter{}, InstanceFinish: &monitoring.Counter{}}
 	conf.Engine.Pools[0].Aggregator = agg
